@@ -68,6 +68,9 @@ def run(ctx) -> None:
         ctx.reuse("C09.slots", c07.step_block, dev)
     ctx.reuse("C09.sanitise", c07.wash_method)
     ctx.guard("C09.diti-switch", diti_switch)
+    from . import objmodel
+
+    ctx.guard("C09.max-volume", objmodel.worklist_model, "C09.max-volume")
     # the exclusion list may be any collection of integers, a numpy array included: "none given" is decided by `is None`
     from .common import truthiness_rule
 
@@ -206,6 +209,12 @@ def _positional(call: ast.Call) -> List[ast.AST]:
             out += list(a.value.elts)
         else:
             out.append(a)
+    # arguments given by keyword, in the validator's parameter order
+    kws = {k.arg: k.value for k in call.keywords if k.arg}
+    for name in VALIDATOR_ORDER[len(out):]:
+        if name not in kws:
+            break
+        out.append(kws[name])
     return out
 
 
@@ -795,4 +804,12 @@ def modes(ctx) -> None:
     for n, test, pol, r in fv.raising_guards():
         if attr_of_name(fv.res.resolve(test, n.id), selfn, "diti_mode") and pol and raise_class(fv, r)[0] == "InvalidOperationError" and all(fv.cfg.dominates(n.id, e) for e in emits):
             ok = True
+    if not ok and emits:
+        # the same dispatch with the emitting branch first: every emit happens where diti_mode is known to be false, and a raise
+        # of InvalidOperationError stands where it is known to be true
+        def knows(nid, pol_):
+            return any(attr_of_name(r_, selfn, "diti_mode") and p_ == pol_ for r_, p_, _b in fv.atoms_at(nid))
+
+        raises = [n for n in fv.cfg.nodes if n.kind == "stmt" and isinstance(n.ast, ast.Raise) and raise_class(fv, n.ast)[0] == "InvalidOperationError"]
+        ok = all(knows(e, False) for e in emits) and any(knows(n.id, True) for n in raises)
     ctx.rep.check(ok and bool(emits), rule, f"{f.qualname}/diti", "a decontamination wash in DiTi mode raises InvalidOperationError and appends nothing", "decontaminate() does not refuse DiTi mode before emitting WD;", where=f.where())
